@@ -96,13 +96,14 @@ PROPS = {
                        "every argument and for EVERY cache content satisfying the cache invariant the answer is the table lookup the naive "
                        "scan defines, and that every value written to the cache satisfies the invariant; all finite query histories follow by "
                        "induction (the postcondition does not mention the cache). The round trip is a lemma over the two contracts. "
-                       "line_break_len is proved complete by Kani. LineIndex::build (start list == naive line starts) is covered by a bounded "
-                       "Kani twin only.",
+                       "LineIndex::build is proved too: the stored line starts are strictly increasing, begin with 0 and are exactly the "
+                       "positions the naive LF/CR/CRLF scan calls line starts (a break at the very end starts no line), which also establishes "
+                       "the representation invariant the queries assume. line_break_len is proved by Verus and, independently, complete by Kani.",
         "trusted_base": COMMON_TRUST + ["Verus 0.2026.09.13 + Z3", "InvCell model of core::cell::Cell (a Cell holds what was last stored)",
                                         "EliasFano::{get,predecessor,len,build} contracts (C03)"],
         "assumptions": ["offset < usize::MAX for to_line_column (for offset == usize::MAX and a line start of 0 the naive column "
                         "offset - start + 1 is not representable)",
-                        "LineIndex::build: bounded evidence only (all texts of 5 bytes over {LF,CR,'a'})"],
+                        "EliasFano::{build,get,predecessor,len} contracts are those of C03 (cursor/get proved inductively with bounded data; build not proved)"],
     },
     "C03": {
         "level": "proof",
